@@ -579,7 +579,8 @@ class SArr(Value):
         return SArr(shape, elem, dtype)
 
     def map1(self, f, dtype=None):
-        return SArr(self.shape, lambda idx: f(self.get(idx)), dtype or self.dtype)
+        fz = self._freeze()
+        return SArr(self.shape, lambda idx: f(fz(tuple(_len_term(i) if isinstance(i, int) else i for i in idx))), dtype or self.dtype)
 
     def all_term(self):
         idx = [z3.Int(f"q!all{k}") for k, _ in enumerate(self.shape)]
@@ -655,7 +656,9 @@ def _broadcast_shape(a, b):
 
 def _getter(a, shape):
     if isinstance(a, SArr):
-        return a.get
+        # the result of an elementwise operation is a new array: it must not see later writes to its operands
+        fz = a._freeze()
+        return lambda idx: fz(tuple(_len_term(i) if isinstance(i, int) else i for i in idx))
     t = _num(a)
     return lambda idx: t
 
